@@ -21,6 +21,11 @@ pub mod c17_relay_recv;
 pub mod c18_mapped_addrs;
 pub mod c19_send_dispatch;
 pub mod c20_bind_order;
+pub mod c31_endpoint_info;
+pub mod c32_signed_packet;
+pub mod c33_timestamps;
+pub mod c34_stagger;
+pub mod c35_resolve_host_all;
 pub mod c02_encodings;
 pub mod c03_handshake;
 pub mod c04_forwarding;
@@ -54,6 +59,11 @@ pub const REGISTRY: &[Prop] = &[
     Prop { id: "C18", level: "exploration", watchdog_quick_s: 900, watchdog_thorough_s: 7200, run: c18_mapped_addrs::run },
     Prop { id: "C19", level: "exploration", watchdog_quick_s: 900, watchdog_thorough_s: 7200, run: c19_send_dispatch::run },
     Prop { id: "C20", level: "exploration", watchdog_quick_s: 600, watchdog_thorough_s: 3600, run: c20_bind_order::run },
+    Prop { id: "C31", level: "exploration", watchdog_quick_s: 600, watchdog_thorough_s: 3600, run: c31_endpoint_info::run },
+    Prop { id: "C32", level: "exploration", watchdog_quick_s: 600, watchdog_thorough_s: 3600, run: c32_signed_packet::run },
+    Prop { id: "C33", level: "exploration", watchdog_quick_s: 600, watchdog_thorough_s: 3600, run: c33_timestamps::run },
+    Prop { id: "C34", level: "exploration", watchdog_quick_s: 600, watchdog_thorough_s: 3600, run: c34_stagger::run },
+    Prop { id: "C35", level: "exploration", watchdog_quick_s: 600, watchdog_thorough_s: 3600, run: c35_resolve_host_all::run },
 ];
 
 /// In-target oracles of the libFuzzer targets (see /verif/fuzzing/fuzz).  Panics on a violation.
